@@ -128,9 +128,8 @@ def run(ctx: Ctx) -> None:
     rule_r2(ctx)
     rule_r3(ctx)
     polarity_rule(ctx, "C04.R4", sides=("and",))
-    from .c05 import unfiltered_rule, walker_rule
-    walker_rule(ctx, "C04.R4", only=("reachability",))
-    unfiltered_rule(ctx, "C04.R4")
+    from .grammodel import wrapper_rule
+    ctx.floor("C04.R4", wrapper_rule(ctx, "C04.R4"), 9, "nested wrapper forms")
     # the recursive set that the full and position-independent deciders consult, end to end on the model grammars (C05.R6)
     from .grammodel import analysis_rule
     ctx.rule("C04.R5", "the recursive set the full / position-independent deciders consult is exact on the model grammars (both modes)")
